@@ -11,6 +11,39 @@ from fractions import Fraction as Fr
 from .poly import Poly, _mono_div
 
 
+class _Budget:
+    """wall-clock budget for one symbolic execution (normal forms of a mutated kernel can explode): exceeding it is a subset escape - the obligation is
+    undecided (or refuted by the numeric refuter), never a verdict"""
+
+    def __init__(self, seconds):
+        self.seconds = seconds
+
+    def __enter__(self):
+        import signal
+
+        def onalarm(sig, frm):
+            raise OutOfSubset(f"symbolic execution exceeded its time budget of {self.seconds} s")
+        try:
+            self.old = signal.signal(signal.SIGALRM, onalarm)
+            signal.setitimer(signal.ITIMER_REAL, self.seconds)
+            self.armed = True
+        except ValueError:          # not in the main thread
+            self.armed = False
+        return self
+
+    def __exit__(self, *a):
+        import signal
+        if self.armed:
+            signal.setitimer(signal.ITIMER_REAL, 0)
+            signal.signal(signal.SIGALRM, self.old)
+        return False
+
+
+def time_budget(seconds=None):
+    import os
+    return _Budget(seconds or float(os.environ.get("VERIF_SYMEXEC_BUDGET_S", "90")))
+
+
 class OutOfSubset(Exception):
     """the executed function left the verifiable subset (reported as undecided, never as a violation)"""
 
